@@ -1,4 +1,4 @@
-import I2N.Lemmas.Trav
+import I2N.Lemmas.TravBasic
 import Std.Data.String.ToNat
 /-!
 Bookkeeping invariants of the traversal model behind C03 (retry budget) and C10 (identifiers):
@@ -94,25 +94,6 @@ theorem SameNodes.objs {gv g : Graph} (h : SameNodes gv g) (n : Nat) : (gv.node 
 theorem SameNodes.worker {gv g : Graph} (h : SameNodes gv g) (w : Nat) : gv.worker w = g.worker w := by
   unfold Graph.worker; rw [h.workers]
 
-/-- a node of the visible graph is the node of the full graph with some of its edges removed -/
-theorem vis_node (g : Graph) (s : State) (n : Nat) :
-    ∃ su cl, (vis g s).node n = { g.node n with setup := su, cleanup := cl } ∧
-      (∀ p ∈ su, p ∈ (g.node n).setup) ∧ (∀ p ∈ cl, p ∈ (g.node n).cleanup) := by
-  unfold vis
-  by_cases he : s.hidden.isEmpty = true
-  · simp only [he, if_true]
-    exact ⟨_, _, rfl, fun _ h => h, fun _ h => h⟩
-  · simp only [he, Bool.false_eq_true, if_false]
-    unfold Graph.node
-    simp only [List.getD_eq_getElem?_getD, List.getElem?_map, List.getElem?_zipIdx]
-    cases hn : g.nodes[n]? with
-    | none => exact ⟨[], [], rfl, fun _ h => by simp at h, fun _ h => by simp at h⟩
-    | some nd =>
-      simp only [Option.map_some, Option.getD_some, Nat.zero_add]
-      split
-      · exact ⟨[], [], rfl, fun _ h => by simp at h, fun _ h => by simp at h⟩
-      · exact ⟨_, _, rfl, fun _ h => (List.mem_filter.mp h).1, fun _ h => (List.mem_filter.mp h).1⟩
-
 theorem vis_len (g : Graph) (s : State) : (vis g s).nodes.length = g.nodes.length := by
   unfold vis
   split
@@ -140,18 +121,6 @@ theorem GraphWF.cleanup_lt {g : Graph} (h : GraphWF g) (n : Nat) (p : Nat × Lis
     p.1 < g.nodes.length := (h.2 n p).2 hp
 
 /-! ## access lemmas -/
-
-theorem nd_setNd_cases (s : State) (m : Nat) (f : NodeD → NodeD) (n : Nat) :
-    (s.setNd m f).nd n = s.nd n ∨ (n = m ∧ m < s.nodes.length ∧ (s.setNd m f).nd n = f (s.nd n)) := by
-  by_cases h : n = m
-  · subst h
-    by_cases hl : n < s.nodes.length
-    · right; exact ⟨rfl, hl, nd_setNd_eq s n f hl⟩
-    · left
-      unfold State.setNd State.nd
-      simp only [List.getD_eq_getElem?_getD, List.getElem?_modify]
-      rw [List.getElem?_eq_none (by omega)]; rfl
-  · left; exact nd_setNd_ne s m n f h
 
 theorem wd_setWd_cases (s : State) (w : Nat) (f : WorkerD → WorkerD) :
     ((s.setWd w f).wd w = s.wd w ∧ ¬ w < s.workers.length) ∨
@@ -1460,10 +1429,6 @@ theorem ReachableR.basic {g : Graph} (hwf : graphWF g = true) {ncls : Nat} {stor
 def classLen (g : Graph) (s : State) (c : Nat) : Nat :=
   ((g.classNodes c).map (fun j => (s.nd j).results.length)).sum
 
-theorem mem_classNodes (g : Graph) (c n : Nat) : n ∈ g.classNodes c ↔ n < g.nodes.length ∧ (g.node n).cls = c := by
-  unfold Graph.classNodes
-  simp [List.mem_filter, List.mem_range]
-
 theorem nodup_classNodes (g : Graph) (c : Nat) : (g.classNodes c).Nodup := by
   unfold Graph.classNodes
   exact List.Nodup.sublist List.filter_sublist List.nodup_range
@@ -2490,7 +2455,7 @@ theorem preFreshB_sound {g : Graph} (h : preFreshB g = true) : PreNamesFresh g :
 
 /-! ## the copies a worker's decision looks at -/
 
-theorem mem_copies (g : Graph) (n n' : Nat) (hn : n < g.nodes.length) (hflat : (g.node n').flat = false)
+theorem mem_copies_of_cls (g : Graph) (n n' : Nat) (hn : n < g.nodes.length) (hflat : (g.node n').flat = false)
     (hcls : (g.node n).cls = (g.node n').cls) : n ∈ g.copies n' := by
   unfold Graph.copies
   simp only [hflat, Bool.false_eq_true, if_false]
@@ -2503,7 +2468,7 @@ theorem mem_sharedResults (g : Graph) (s : State) (n n' : Nat) (r : Result) (hn 
     (hflat : (g.node n').flat = false) (hcls : (g.node n).cls = (g.node n').cls) (hr : r ∈ (s.nd n).results) :
     r ∈ sharedResults g s n' := by
   unfold sharedResults
-  exact List.mem_flatMap.mpr ⟨n, mem_copies g n n' hn hflat hcls, hr⟩
+  exact List.mem_flatMap.mpr ⟨n, mem_copies_of_cls g n n' hn hflat hcls, hr⟩
 
 /-! ## the run decision of stateful tests (one step) -/
 
